@@ -272,7 +272,9 @@ impl<'a> Extension<'a> {
         w.start_seq("")?;
         for t in list {
             let t = t? as usize;
-            if t > 0 && t <= encoding.len() {
+            // Note: the values come from a (peer-supplied) certificate; `encoding.len()` itself
+            // is not a valid index
+            if t > 0 && t < encoding.len() {
                 w.oid(encoding[t].0, encoding[t].1)?;
             } else {
                 error!("Skipping encoding key usage out of bounds");
@@ -1399,6 +1401,21 @@ mod tests {
             let len = unwrap!(c.as_asn1(&mut asn1_buf));
             assert_eq!(ASN1_OUTPUT_TXT_IN_DN, &asn1_buf[..len]);
         }
+    }
+
+    #[test]
+    fn test_asn1_encode_ext_key_usage_out_of_range() {
+        // NOC1 with the extended key usage list [2, 1] replaced by [7, 1]: 7 is one past the
+        // last known purpose; it must be skipped like every other unknown value, not index the table
+        let mut tlv = [0u8; NOC1_SUCCESS.len()];
+        tlv.copy_from_slice(NOC1_SUCCESS);
+        let eku = [0x36, 0x03, 0x04, 0x02, 0x04, 0x01, 0x18];
+        let pos = unwrap!(tlv.windows(eku.len()).position(|w| w == eku));
+        tlv[pos + 3] = 7;
+
+        let mut asn1_buf = [0u8; 1000];
+        let c = CertRef::new(TLVElement::new(&tlv));
+        unwrap!(c.as_asn1(&mut asn1_buf));
     }
 
     #[test]
